@@ -408,6 +408,29 @@ theorem tbs_congr (cfg : Cfg) (bs bs' : List Borrow) (ss : List Stats)
     ∀ sf, ∀ st ∈ ss, projB sf st = borrowedSum cfg bs' st.pool st.asset sf := by
   intro sf st hst; rw [hF]; exact h sf st hst
 
+/-! ### id-list updates leave the totals alone -/
+
+/-- a stats modifier that keeps the key and the three published totals the identities speak about (the id-list updates) -/
+def IdsOnly (f : Stats → Stats) : Prop :=
+  ∀ st, (f st).pool = st.pool ∧ (f st).asset = st.asset ∧ (f st).totalLend = st.totalLend ∧
+    (f st).totalBorrowed = st.totalBorrowed ∧ (f st).totalStable = st.totalStable
+
+theorem idsOnly_addLend (id : Nat) : IdsOnly fun s => { s with lendIds := s.lendIds ++ [id] } := fun _ => ⟨rfl, rfl, rfl, rfl, rfl⟩
+theorem idsOnly_delLend (id : Nat) : IdsOnly fun s => { s with lendIds := delId s.lendIds id } := fun _ => ⟨rfl, rfl, rfl, rfl, rfl⟩
+theorem idsOnly_addBorrow (id : Nat) : IdsOnly fun s => { s with borrowIds := s.borrowIds ++ [id] } := fun _ => ⟨rfl, rfl, rfl, rfl, rfl⟩
+theorem idsOnly_delBorrow (id : Nat) : IdsOnly fun s => { s with borrowIds := delId s.borrowIds id } := fun _ => ⟨rfl, rfl, rfl, rfl, rfl⟩
+
+theorem tl_modIds {ls : List Lend} {bs : List Borrow} {ss : List Stats} (p a : Nat) {f : Stats → Stats} (hf : IdsOnly f) (h : TL ls bs ss) :
+    TL ls bs (modStats ss p a f) :=
+  stats_mod (fun st => st.totalLend) (lendSum ls bs) (lendSum ls bs) ss p a f 0 (fun st => ⟨(hf st).1, (hf st).2.1⟩)
+    (fun st => by simp [(hf st).2.2.1]) (fun _ _ => by simp) h
+
+theorem tbs_modIds (cfg : Cfg) (bs : List Borrow) (ss : List Stats) (p a : Nat) {f : Stats → Stats} (hf : IdsOnly f)
+    (h : ∀ sf, ∀ st ∈ ss, projB sf st = borrowedSum cfg bs st.pool st.asset sf) :
+    ∀ sf, ∀ st ∈ modStats ss p a f, projB sf st = borrowedSum cfg bs st.pool st.asset sf := fun sf =>
+  stats_mod (projB sf) (fun p a => borrowedSum cfg bs p a sf) (fun p a => borrowedSum cfg bs p a sf) ss p a f 0
+    (fun st => ⟨(hf st).1, (hf st).2.1⟩) (fun st => by cases sf <;> simp [projB, (hf st).2.2.2.1, (hf st).2.2.2.2]) (fun _ _ => by simp) (h sf)
+
 /-! ## Elementary book transitions preserve the invariant -/
 
 section transitions
@@ -416,6 +439,10 @@ variable {cfg : Cfg} {ls : List Lend} {bs : List Borrow} {ss : List Stats} {lc b
 /-- T1: interest bookkeeping only -/
 theorem core_interest (h : Core cfg ls bs ss lc bc) (p a : Nat) (d : Int) : Core cfg ls bs (addTotalInterest ss p a d) lc bc :=
   { h with tbs := tbs_of_addTotalInterest cfg bs ss p a d h.tbs }
+
+/-- T1b: an id-list update -/
+theorem core_modIds (h : Core cfg ls bs ss lc bc) (p a : Nat) {f : Stats → Stats} (hf : IdsOnly f) : Core cfg ls bs (modStats ss p a f) lc bc :=
+  { h with tbs := tbs_modIds cfg bs ss p a hf h.tbs }
 
 /-- T2: one lend's availability (and principal) moves by `d`, the lent total with it (deposit, withdraw, reward) -/
 theorem core_lendDelta (h : Core cfg ls bs ss lc bc) {l l' : Lend} (hg : getLend ls l.id = some l) (hid : l'.id = l.id) (d : Int) :
@@ -700,6 +727,23 @@ theorem tl_handoverDel (h : Core cfg ls bs ss lc bc) (t : TL ls bs ss) {b b' : B
   · have hc' : ¬ (p' = l.pool ∧ a' = l.asset) := fun e => hc ⟨e.1.symm, e.2.symm⟩
     rw [if_neg hc, if_neg hc', if_neg hc]; omega
 
+/-- T11: a handed-over borrow is deleted (auction close): it was in no sum -/
+theorem core_borrowDelLiq (h : Core cfg ls bs ss lc bc) {b : Borrow} (hg : getBorrow bs b.id = some b) (hq : b.liq = true) :
+    Core cfg ls (delBorrow bs b.id) ss lc bc := by
+  refine { h with bu := uniq_del bid bs b.id h.bu, bl := ?_, br := ?_, tbs := ?_ }
+  · intro x hx; exact h.bl x (mem_del bid bs b.id x hx).1
+  · intro x hx; exact h.br x (mem_del bid bs b.id x hx).1
+  · apply tbs_congr cfg bs _ ss h.tbs
+    intro sf p' a'
+    rw [borrowed_del cfg bs b h.bu hg, bo_liq hq]; omega
+
+theorem tl_borrowDelLiq (h : Core cfg ls bs ss lc bc) (t : TL ls bs ss) {b : Borrow} (hg : getBorrow bs b.id = some b) (hq : b.liq = true) :
+    TL ls (delBorrow bs b.id) ss := by
+  apply tl_congr ls _ bs _ ss t
+  intro p' a'
+  rw [lendSum_shift ls bs (delBorrow bs b.id) b.lendingId 0 h.lu (fun j => by rw [pledged_del bs b h.bu hg j, hq]; simp) p' a']
+  cases getLend ls b.lendingId <;> simp
+
 end transitions
 /-! ## Every handler preserves the book invariant -/
 
@@ -751,8 +795,10 @@ theorem lendNew_pres {cfg : Cfg} {s s' : State} {u a : Nat} {amt : Int} {pool : 
   unfold lendNew at h
   invert h
   refine ⟨fun c => ?_, fun c t => ?_⟩
-  · exact core_lendNew c { id := s.lendCtr + 1, owner := u, pool := pool.id, asset := a, amountIn := amt, avail := amt, app := app } rfl amt
-  · exact tl_lendNew c t { id := s.lendCtr + 1, owner := u, pool := pool.id, asset := a, amountIn := amt, avail := amt, app := app } rfl
+  · exact core_modIds (core_lendNew c { id := s.lendCtr + 1, owner := u, pool := pool.id, asset := a, amountIn := amt, avail := amt, app := app } rfl amt)
+      _ _ (idsOnly_addLend _)
+  · exact tl_modIds _ _ (idsOnly_addLend _)
+      (tl_lendNew c t { id := s.lendCtr + 1, owner := u, pool := pool.id, asset := a, amountIn := amt, avail := amt, app := app } rfl)
 
 theorem lend_pres {cfg : Cfg} {s s' : State} {u a d : Nat} {amt : Int} {p app : Nat} {r : Int} (h : lend cfg s u a d amt p app r = .ok s') :
     Pres cfg s s' := by
@@ -765,11 +811,11 @@ theorem closeLend_pres {cfg : Cfg} {s s' : State} {u k : Nat} {r : Int} (h : clo
   unfold closeLend at h
   invert h
   refine Pres.trans (iterLends_pres (by assumption)) ⟨fun c => ?_, fun c t => ?_⟩
-  · exact core_lendClose c _ _ _ _
+  · exact core_modIds (core_lendClose c _ _ _ _) _ _ (idsOnly_delLend _)
   · have hg := getLend_mem ‹getLend _ k = some _›
     have := tl_lendClose c t (getLend_id ‹getLend _ k = some _›) (by rw [hg.2]; assumption)
     rw [hg.2] at this
-    exact this
+    exact tl_modIds _ _ (idsOnly_delLend _) this
 
 theorem withdraw_pres {cfg : Cfg} {s s' : State} {u k d : Nat} {w r : Int} (h : withdraw cfg s u k d w r = .ok s') : Pres cfg s s' := by
   unfold withdraw at h
@@ -863,8 +909,8 @@ theorem openBorrow_pres {cfg : Cfg} {s : State} {l : Lend} {pair : PairCfg} {sta
     Pres cfg s (openBorrow s l pair stable dIn aIn dOut aOut brd br bank) := by
   unfold openBorrow
   refine ⟨fun c => ?_, fun c t => ?_⟩
-  · exact core_borrowNew c hgl (by rfl) _ hp (by rfl) (by rfl) (by rfl)
-  · exact tl_borrowNew c t hgl (by rfl) (by rfl) (by rfl) _ (by rfl) (by rfl) (by rfl) _ _ _ _
+  · exact core_modIds (core_borrowNew c hgl (by rfl) _ hp (by rfl) (by rfl) (by rfl)) _ _ (idsOnly_addBorrow _)
+  · exact tl_modIds _ _ (idsOnly_addBorrow _) (tl_borrowNew c t hgl (by rfl) (by rfl) (by rfl) _ (by rfl) (by rfl) (by rfl) _ _ _ _)
 
 theorem borrowNew_pres {cfg : Cfg} {s s' : State} {u : Nat} {l : Lend} {pair : PairCfg} {rates : RatesCfg} {stable : Bool} {dIn : Nat} {aIn : Int}
     {dOut : Nat} {aOut : Int} (hgl : getLend s.lends l.id = some l) (hp : cfg.pair? pair.id = some pair)
@@ -905,10 +951,12 @@ theorem closeBorrow_pres {cfg : Cfg} {s s' : State} {u k : Nat} {ext : ExtB} (h 
     have hk := (getBorrow_mem hb1).2
     subst hk
     refine Pres.trans (iterBorrow_pres hit) ⟨fun c => ?_, fun c t => ?_⟩
-    · first
+    · refine core_modIds ?_ _ _ (idsOnly_delBorrow _)
+      first
       | exact core_borrowClose (core_interest c _ _ _) (getBorrow_id hb1) (by rw [hq, hq0]) hp (getLend_id hgl) (by rfl)
       | exact core_borrowClose c (getBorrow_id hb1) (by rw [hq, hq0]) hp (getLend_id hgl) (by rfl)
-    · first
+    · refine tl_modIds _ _ (idsOnly_delBorrow _) ?_
+      first
       | exact tl_stats_borrowed (tl_borrowClose (core_interest c _ _ _) (tl_of_addTotalInterest _ _ _ _ _ _ t) (getBorrow_id hb1)
           (by rw [hq, hq0]) hgl (by rfl) (by rfl) (by rfl) (by rfl)) _ _ _ _
       | exact tl_stats_borrowed (tl_borrowClose c t (getBorrow_id hb1) (by rw [hq, hq0]) hgl (by rfl) (by rfl) (by rfl) (by rfl)) _ _ _ _
@@ -1034,7 +1082,7 @@ theorem handover_core {cfg : Cfg} {s s' : State} {k : Nat} {ni : Dec} (h : hando
     have hq0 := bnot_true ‹(!Borrow.liq _) = true›
     have hgl := ‹getLend s.lends _ = some _›
     have hp := ‹cfg.pair? _ = some _›
-  · exact core_lendClose (core_borrowLiq c (getBorrow_id hb) (by rfl) (by rfl) hq0 (by rfl) hp) _ _ _ _
+  · exact core_modIds (core_lendClose (core_borrowLiq c (getBorrow_id hb) (by rfl) (by rfl) hq0 (by rfl) hp) _ _ _ _) _ _ (idsOnly_delLend _)
   · exact core_lendDelta (core_borrowLiq c (getBorrow_id hb) (by rfl) (by rfl) hq0 (by rfl) hp) (getLend_id hgl) (by rfl) _
 
 theorem handover_tl {cfg : Cfg} {s s' : State} {k : Nat} {ni : Dec} (h : handover cfg s k ni = .ok s') (c : CoreS cfg s)
@@ -1047,9 +1095,62 @@ theorem handover_tl {cfg : Cfg} {s s' : State} {k : Nat} {ni : Dec} (h : handove
     have hgl := ‹getLend s.lends _ = some _›
     have hcl := hc.use hb hgl
   · have hclean := hcl.resolve_left ‹¬ (_ : Int) > 0›
-    exact tl_handoverDel c t (getBorrow_id hb) (by rfl) (by rfl) hq0 (by rfl) hgl hclean _ _ _ _
+    exact tl_modIds _ _ (idsOnly_delLend _) (tl_handoverDel c t (getBorrow_id hb) (by rfl) (by rfl) hq0 (by rfl) hgl hclean _ _ _ _)
   · exact tl_handoverKeep c t (getBorrow_id hb) (by rfl) (by rfl) hq0 (by rfl) hgl
       (by rfl) (by rfl) (by rfl) (by rfl) _ _ _ _
+
+/-! ### after the hand-over: bids and the auction close -/
+
+theorem auctionBid_pres {cfg : Cfg} {s s' : State} {u k : Nat} {paid recv : Int} (h : auctionBid cfg s u k paid recv = .ok s') : Pres cfg s s' := by
+  unfold auctionBid at h
+  invert h
+  exact ⟨fun c => c, fun _ t => t⟩
+
+theorem auctionClose_pres {cfg : Cfg} {s s' : State} {u k : Nat} {paid recv left topUp : Int}
+    (h : auctionClose cfg s u k paid recv left topUp = .ok s') : Pres cfg s s' := by
+  unfold auctionClose at h
+  invert h
+  all_goals
+    have hb := ‹getBorrow s.borrows k = some _›
+    have hq : Borrow.liq _ = true := ‹Borrow.liq _ = true›
+    have hk := (getBorrow_mem hb).2
+    subst hk
+    refine ⟨fun c => core_modIds ?_ _ _ (idsOnly_delBorrow _), fun c t => tl_modIds _ _ (idsOnly_delBorrow _) ?_⟩
+    · first
+      | exact core_borrowDelLiq (core_interest c _ _ _) (getBorrow_id hb) hq
+      | exact core_borrowDelLiq c (getBorrow_id hb) hq
+    · first
+      | exact tl_borrowDelLiq (core_interest c _ _ _) (tl_of_addTotalInterest _ _ _ _ _ _ t) (getBorrow_id hb) hq
+      | exact tl_borrowDelLiq c t (getBorrow_id hb) hq
+
+/-! ### the block hook: only balances, reserve records and the deleted-pools list move -/
+
+/-- positions, totals and counters are the same -/
+def SameBooks (s s' : State) : Prop :=
+  s'.lends = s.lends ∧ s'.borrows = s.borrows ∧ s'.stats = s.stats ∧ s'.lendCtr = s.lendCtr ∧ s'.borrowCtr = s.borrowCtr ∧ s'.locked = s.locked
+
+theorem pres_of_frame {cfg : Cfg} {s s' : State} (f : SameBooks s s') : Pres cfg s s' := by
+  obtain ⟨h1, h2, h3, h4, h5, _⟩ := f
+  refine ⟨fun c => ?_, fun _ t => ?_⟩
+  · unfold CoreS at *; rw [h1, h2, h3, h4, h5]; exact c
+  · unfold TotalLendEq at *; rw [h1, h2, h3]; exact t
+
+theorem sweepPool_frame {cfg : Cfg} {s s' : State} {p : Nat} (h : sweepPool cfg s p = .ok s') : SameBooks s s' := by
+  unfold sweepPool at h
+  invert h
+  all_goals exact ⟨rfl, rfl, rfl, rfl, rfl, rfl⟩
+
+theorem sweepPools_frame {cfg : Cfg} (ps : List Nat) {s s' : State} (h : sweepPools cfg s ps = .ok s') : SameBooks s s' := by
+  induction ps generalizing s with
+  | nil => unfold sweepPools at h; cases h; exact ⟨rfl, rfl, rfl, rfl, rfl, rfl⟩
+  | cons p ps ih =>
+    simp only [sweepPools] at h
+    invert h
+    obtain ⟨a1, a2, a3, a4, a5, a6⟩ := sweepPool_frame ‹sweepPool cfg s p = .ok _›
+    obtain ⟨b1, b2, b3, b4, b5, b6⟩ := ih ‹sweepPools cfg _ ps = .ok s'›
+    exact ⟨by rw [b1, a1], by rw [b2, a2], by rw [b3, a3], by rw [b4, a4], by rw [b5, a5], by rw [b6, a6]⟩
+
+theorem beginBlock_frame {cfg : Cfg} {s s' : State} (h : beginBlock cfg s = .ok s') : SameBooks s s' := sweepPools_frame _ h
 
 /-! ### one step -/
 
@@ -1079,7 +1180,10 @@ theorem step_pres {cfg : Cfg} {s s' : State} {op : Op} (h : step cfg s op = .ok 
     | fundReserve => exact fundReserve_pres h
     | setPrice a t => simp only [Except.ok.injEq] at h; subst h; exact setPrice_pres
     | setKill a on => simp only [Except.ok.injEq] at h; subst h; exact ⟨fun c => c, fun _ t => t⟩
-    | setDepreciated p => simp only [Except.ok.injEq] at h; subst h; exact ⟨fun c => c, fun _ t => t⟩
+    | setDepreciated p f => simp only [Except.ok.injEq] at h; subst h; exact ⟨fun c => c, fun _ t => t⟩
+    | beginBlock => exact pres_of_frame (beginBlock_frame h)
+    | bid => exact auctionBid_pres h
+    | auctionClose => exact auctionClose_pres h
 
 theorem step_core {cfg : Cfg} {s s' : State} {op : Op} (h : step cfg s op = .ok s') (c : CoreS cfg s) : CoreS cfg s' := by
   cases hop : op.isHandover
